@@ -589,6 +589,21 @@ def w_akai_stereo(pid, tier, seed, job):
     return ctx.dump()
 
 
+_AGAIN = []
+
+
+def path_again(data):
+    """a scratch image file that lives until _cleanup_again()"""
+    t = R.TempImage(data)
+    _AGAIN.append(t)
+    return t.__enter__()
+
+
+def _cleanup_again():
+    while _AGAIN:
+        _AGAIN.pop().__exit__(None, None, None)
+
+
 def w_akai_truncated(pid, tier, seed, job):
     """Image files cut inside the PCM data of a mono sample (odd and even offsets, around sector boundaries): whatever export still
     reports must be a well-formed WAV with whole frames."""
@@ -601,6 +616,8 @@ def w_akai_truncated(pid, tier, seed, job):
                                    rate=rng.choice([22050, 44100]), note=60))
     parts = [AW.Partition([AW.Volume("VOL", files)], size_sectors=40)]
     img = AW.image_bytes(parts)
+    with R.TempImage(img) as p0:
+        _r0, full_tree, _rep0 = R.export(p0)
     cuts = set()
     for f in files:
         d0 = f.sectors[0] * 8192 + 140
@@ -621,6 +638,15 @@ def w_akai_truncated(pid, tier, seed, job):
             if pth in tree:
                 ok, why = oracle_wav(tree[pth], 1)
                 ctx.require("reported file is a well-formed RIFF/WAVE PCM file (truncated AKAI image through export)", dict(case, file=pth), ok, why)
+        # the same export into a directory that still holds the (longer) files of an earlier run: what is reported is the same, well-formed file
+        if (cut + job) % 3 == 0 and full_tree:
+            r2, tree2, rep2 = R.export(path_again(img[:cut]), prefill=full_tree)
+            for pth in rep2:
+                ok, why = oracle_wav(tree2.get(pth, b""), 1)
+                ctx.require("reported file is a well-formed RIFF/WAVE PCM file (exported over a longer file of an earlier run)", dict(case, file=pth, reused_destination=True), ok, why)
+                ctx.require("a file written over an earlier run's file has the same bytes as in an empty destination", dict(case, file=pth, reused_destination=True),
+                            tree2.get(pth) == tree.get(pth), {"len_reused": len(tree2.get(pth, b"")), "len_fresh": len(tree.get(pth, b""))})
+    _cleanup_again()
     return ctx.dump()
 
 
